@@ -326,7 +326,8 @@ Proof. intros. eapply bp_equiv_parse_eq; eauto. apply lex_ok_all. Qed.
 Lemma ir_ref_agree : tables_agree_on ok_unary_mul oku_all tbl_ir tbl_ref = true.
 Proof. vm_compute. reflexivity. Qed.
 
-Lemma peg_ref_agree : tables_agree_on ok_xor_chain oku_all tbl_peg tbl_ref = true.
+(* since /repo 1596e0a (`^` left-associative) the legacy parser's level list has no excused comparison *)
+Lemma peg_ref_agree : tables_agree_on ok_all oku_all tbl_peg tbl_ref = true.
 Proof. vm_compute. reflexivity. Qed.
 
 Lemma rowan_ref_agree : tables_agree_on ok_unary_mul oku_no_plus tbl_rowan tbl_ref = true.
@@ -344,10 +345,9 @@ Proof.
   eapply bp_equiv_parse; [apply ir_ref_agree|exact K].
 Qed.
 
-Lemma peg_outside_known : forall ts, known_xor_chain ts = false -> parse tbl_peg ts = parse tbl_ref ts.
+Lemma peg_is_grammar : forall ts, parse tbl_peg ts = parse tbl_ref ts.
 Proof.
-  intros ts K. apply negb_false_true in K.
-  eapply bp_equiv_parse; [apply peg_ref_agree|exact K].
+  intros ts. eapply bp_equiv_parse; [apply peg_ref_agree|apply lex_ok_all].
 Qed.
 
 Lemma rowan_outside_known : forall ts, known_rowan ts = false -> parse tbl_rowan ts = parse tbl_ref ts.
@@ -370,12 +370,6 @@ Lemma ir_unary_refuted :
              parse tbl_ir ts = Ok (EUn UBitNot (EBin Mul (EAtom 0) (EAtom 1))) /\
              parse tbl_ref ts = Ok (EBin Mul (EUn UBitNot (EAtom 0)) (EAtom 1)).
 Proof. exists [TBitNot; TAtom 0; TOp Mul; TAtom 1]. vm_compute. auto. Qed.
-
-Lemma peg_xor_refuted :
-  exists ts, known_xor_chain ts = true /\
-             parse tbl_peg ts = Ok (EBin BitXor (EAtom 0) (EBin BitXor (EAtom 1) (EAtom 2))) /\
-             parse tbl_ref ts = Ok (EBin BitXor (EBin BitXor (EAtom 0) (EAtom 1)) (EAtom 2)).
-Proof. exists [TAtom 0; TOp BitXor; TAtom 1; TOp BitXor; TAtom 2]. vm_compute. auto. Qed.
 
 Lemma rowan_uplus_refuted :
   exists ts, known_rowan ts = true /\ parse tbl_rowan ts = Err /\
@@ -618,9 +612,8 @@ Lemma ir_roundtrip_outside_known : forall p, wf p = true -> known_unary_mul (fla
   parse tbl_ir (flatten p) = Ok (erase p).
 Proof. intros p W K. rewrite (ir_outside_known _ K). apply ref_roundtrip. exact W. Qed.
 
-Lemma peg_roundtrip_outside_known : forall p, wf p = true -> known_xor_chain (flatten p) = false ->
-  parse tbl_peg (flatten p) = Ok (erase p).
-Proof. intros p W K. rewrite (peg_outside_known _ K). apply ref_roundtrip. exact W. Qed.
+Lemma peg_roundtrip : forall p, wf p = true -> parse tbl_peg (flatten p) = Ok (erase p).
+Proof. intros p W. rewrite peg_is_grammar. apply ref_roundtrip. exact W. Qed.
 
 (* ------------------------------------------------------------------ non-vacuity *)
 (* a + b * -c << (d - e) - f : passes every scan (hypotheses of the restricted theorems hold) *)
@@ -628,7 +621,7 @@ Definition ex_tokens : list tok :=
   [TAtom 0; TOp Add; TAtom 1; TOp Mul; TOp Sub; TAtom 2; TOp Lhs; TLP; TAtom 3; TOp Sub; TAtom 4; TRP;
    TOp Sub; TAtom 5].
 Example ex_outside_known :
-  known_unary_mul ex_tokens = false /\ known_xor_chain ex_tokens = false /\ known_rowan ex_tokens = false /\
+  known_unary_mul ex_tokens = false /\ known_rowan ex_tokens = false /\
   parse tbl_ref ex_tokens =
     Ok (EBin Lhs (EBin Add (EAtom 0) (EBin Mul (EAtom 1) (EUn UMinus (EAtom 2))))
                  (EBin Sub (EBin Sub (EAtom 3) (EAtom 4)) (EAtom 5))).
@@ -642,6 +635,6 @@ Proof. vm_compute. auto. Qed.
 
 Example ex_tables_agree_nontrivial :
   tables_agree_on ok_all oku_all tbl_ir tbl_ref = false /\
-  tables_agree_on ok_all oku_all tbl_peg tbl_ref = false /\
+  tables_agree_on ok_all oku_all tbl_rowan tbl_ref = false /\
   tables_agree_on ok_unary_mul oku_all tbl_ir tbl_ref = true.
 Proof. vm_compute. auto. Qed.
